@@ -1,3 +1,3 @@
 // C14 double instantiations
 #include "c14_ext.hpp"
-namespace c14 { template bool run_lattice<double> (bool); template bool run_extreme<double> (bool); template bool run_rounding<double> (bool); }
+namespace c14 { template bool run_lattice<double> (bool); template bool run_extreme<double> (bool); template bool run_rounding<double> (bool); template bool run_elongated<double> (bool); }
